@@ -162,6 +162,33 @@ def direct(c, n=2):
     c.holds('state_is_exactly_that_draw', smp.current_point == ('sample', len(log)) and acc == 1)
 
 
+def direct_real_target(c, geom):
+    """Direct with real distributions on geometries of every kind (also ones that transform the parameters, and images): each recorded state is the PARAMETER
+    vector of the target's own draw taken from the same random stream, recorded as one column of length dim (bounded stand-in: native)"""
+    import io, contextlib
+    from cuqi.experimental.mcmc import Direct
+    from cuqi.distribution import Gaussian
+    g = {'default': lambda: None, 'mapped': lambda: cuqi.geometry.MappedGeometry(cuqi.geometry.Continuous1D(4), map=np.exp, imap=np.log),
+         'KL': lambda: cuqi.geometry.KLExpansion(np.linspace(0, 1, 4), num_modes=4), 'step': lambda: cuqi.geometry.StepExpansion(np.linspace(0, 1, 8), n_steps=4),
+         'image': lambda: cuqi.geometry.Image2D((2, 2))}[geom]()
+    mu = np.array([c.real(f'mu{i}') for i in range(4)])
+    tgt = Gaussian(mu, 0.25, **({'geometry': g} if g is not None else {}))
+    seed = int(c.real('seed', lo=0, hi=10 ** 6))
+    np.random.seed(seed); draws = []
+    for _ in range(6):
+        d_ = tgt.sample(); draws.append(np.asarray(d_.to_numpy() if hasattr(d_, 'to_numpy') else d_, dtype=float).ravel())
+    np.random.seed(seed)
+    with contextlib.redirect_stderr(io.StringIO()):
+        s = Direct(tgt); s.sample(3)
+    S = s.get_samples().samples
+    c.holds('recorded_chain_has_one_column_of_length_dim_per_draw', np.shape(S) == (4, 3), note=str(np.shape(S)))
+    if np.shape(S) == (4, 3):
+        # (the sampler may use draws of the stream for its initial point: the recorded states are consecutive draws of the target's own sampler)
+        offs = [o for o in range(3) if all(np.allclose(S[:, k], draws[k + o], rtol=0, atol=1e-12) for k in range(3))]
+        c.holds('recorded_states_are_the_parameter_vectors_of_consecutive_draws_of_the_targets_own_sampler', len(offs) == 1, note=f"first recorded state {S[:, 0]}, stream starts {draws[0]}, {draws[1]}")
+        if offs: c.eq('current_point_is_the_last_draw', np.asarray(s.current_point, dtype=float).ravel(), draws[2 + offs[0]], tol=1e-12)
+
+
 def jobs(tier):
     J = []
     q = tier == 'quick'
@@ -187,4 +214,6 @@ def jobs(tier):
     for dep in ('cov=1/s^2', 'prec=s^2', 'prec=c*s'):
         J.append(Job(f'legacy.Conjugate:rejects:{dep}', lambda c, d=dep: rejects(c, d, 2, 'leg'), 'Pbox', ['cuqi.sampler._conjugate:Conjugate.__init__'], extra=_extra))
     J.append(Job('experimental.Direct:step_is_targets_own_sample', direct, 'Pbox', ['cuqi.experimental.mcmc._direct:Direct.step'], num=False))
+    for geom in ('default', 'mapped', 'KL', 'step', 'image'):
+        J.append(Job(f'experimental.Direct:real_target:geometry={geom}', lambda c, g=geom: direct_real_target(c, g), 'B', ['cuqi.experimental.mcmc._direct:Direct.step'], nnum=2))
     return J
